@@ -6,6 +6,7 @@ import (
 	"os"
 	"sort"
 	"strings"
+	"time"
 
 	"github.com/DavidGamba/go-getoptions/verifrt"
 
@@ -66,6 +67,15 @@ func defsC20() []*ph.Def {
 			Cmds: []*ph.CmdDef{{Name: "c1"}, {Name: "c2"}},
 		}})
 	}
+	// unknown options that are equally close to two declared names (a "did you mean" must not depend on the table order)
+	for _, unknown := range []int{0, 1} {
+		out = append(out, &ph.Def{Unknown: unknown, Help: "help", Root: ph.CmdDef{Name: "prog",
+			Opts: []ph.OptDef{
+				{Name: "host", Kind: ph.Str}, {Name: "port", Kind: ph.Int}, {Name: "min", Kind: ph.Int}, {Name: "max", Kind: ph.Int, Aliases: []string{"mox"}},
+			},
+			Cmds: []*ph.CmdDef{{Name: "c1"}, {Name: "c2"}},
+		}})
+	}
 	return out
 }
 
@@ -76,6 +86,7 @@ var c20Argvs = [][]string{
 	{"--alpha=1", "--beta=2", "--gamma"}, {"c1"}, {"c1", "--alpha=1"}, {"p", "--unk", "c2"}, {"--", "x"}, {"--ver", "--unk"},
 	{"--defs", "a=b"}, {"--time", "5", "--timeout", "1s"}, {"--tim", "5"},
 	{"help", "x1"}, {"help", "x3"}, {"bundle", "help", "x1"}, {"help", "nosuch"},
+	{"--post"}, {"--mix"}, {"--mix", "--post", "c1"},
 	{"--kv", "Level=debug", "LEVEL=info", "level=x"}, {"--kv", "A=1", "--kv", "a=2"}, {"zap", "x1", "-h"}, {"zap", "-h"}, {"zap", "-h", "v", "x2"},
 }
 
@@ -119,6 +130,27 @@ type c20Case struct {
 	Argv     []string `json:"argv"`
 	CompLine string   `json:"comp_line,omitempty"`
 	Choices  []int    `json:"choices"`
+	Timing   bool     `json:"timing,omitempty"` // the case compares a slow and a fast answer of the dynamic completion function
+}
+
+// c20Timing: the completion list does not depend on how long a dynamic completion function takes to answer (a cold and
+// a warm cache give the same list).
+func c20Timing(def *ph.Def, line string) string {
+	saved := ph.SlowFnDelay
+	defer func() { ph.SlowFnDelay = saved }()
+	ph.SlowFnDelay = 1500 * time.Millisecond
+	slow := c20Observe(def, nil, line)
+	ph.SlowFnDelay = 0
+	fast := c20Observe(def, nil, line)
+	if slow != fast {
+		return "result depends on how long a completion function takes: " + strings.Replace(diffLine(slow, fast), "default map order:", "slow answer:", 1)
+	}
+	return ""
+}
+
+func c20TimingDef() *ph.Def {
+	return &ph.Def{Help: "help", Root: ph.CmdDef{Name: "prog", Opts: []ph.OptDef{{Name: "verbose", Kind: ph.Bool}},
+		ArgCompl: []string{"local-a"}, ArgFn: true, ArgFnSlow: true, Cmds: []*ph.CmdDef{{Name: "run", ArgFnSlow: true}}}}
 }
 
 func diffLine(a, b string) string {
@@ -159,8 +191,8 @@ func init() {
 	register(&Check{
 		ID:        "C20",
 		QuickSecs: 300, ThoroSecs: 1500,
-		Rule: "exploration of hidden nondeterminism: Go's randomised map iteration is replaced (build-time instrumentation of all 22 map ranges of the library) by an explorer-chosen rotation of the sorted key order; for 14 definitions with >= 2 entries in every internal table (options, aliases, commands, suggestions, required options) x 55 argv and 21 COMP_LINE texts, four environment-bound options whose variables all hold unusable text, provoking several simultaneous diagnostics, " +
-			"every execution with <= d non-default rotations is run (bounded-deviation DFS over the range executions) and its complete observation vector (values, remaining, error text, warnings, dispatch result, help text, completion list) must be identical to the default-order run; additionally the same case is run twice with the native map order; " +
+		Rule: "exploration of hidden nondeterminism: Go's randomised map iteration is replaced (build-time instrumentation of all 22 map ranges of the library) by an explorer-chosen rotation of the sorted key order; for 16 definitions with >= 2 entries in every internal table (options, aliases, commands, suggestions, required options) x 58 argv and 21 COMP_LINE texts, four environment-bound options whose variables all hold unusable text, provoking several simultaneous diagnostics, " +
+			"every execution with <= d non-default rotations is run (bounded-deviation DFS over the range executions) and its complete observation vector (values, remaining, error text, warnings, dispatch result, help text, completion list) must be identical to the default-order run; additionally the same case is run twice with the native map order, and two completion lines are run with a dynamic completion function that answers after 1.5 s and at once (the list must not depend on it); " +
 			"states = choice points visited, transitions = range executions, distinct_nontrivial = cases whose execution has at least one order choice point",
 		Assume: []string{"iteration orders are rotations of the sorted key order (every element comes first under some rotation); other permutations are not explored", "definitions and inputs outside the stated lists are not covered"},
 		Run: func(c *RunCtx) {
@@ -187,7 +219,21 @@ func init() {
 			}
 			for {
 				u := c.claim()
-				if u >= len(units) || len(res.Violations) >= 3 {
+				if u == len(units) {
+					// timing of the environment: two completion lines, each with a slow and a fast completion function
+					for _, line := range []string{"prog ", "prog run "} {
+						res.Evaluations += 2
+						res.Traces += 2
+						res.count("timing_cases", 1)
+						if msg := c20Timing(c20TimingDef(), line); msg != "" {
+							cc := c20Case{Def: c20TimingDef(), CompLine: line, Timing: true}
+							raw, _ := jsonMarshal(cc)
+							res.violate(Violation{Prop: "C20", Msg: fmt.Sprintf("%s  [COMP_LINE=%q]", msg, line), Case: raw, Weight: 1})
+						}
+					}
+					continue
+				}
+				if u > len(units) || len(res.Violations) >= 3 {
 					break
 				}
 				if c.expired() {
@@ -243,6 +289,9 @@ func replayC20(raw json.RawMessage) (string, error) {
 	var cc c20Case
 	if err := json.Unmarshal(raw, &cc); err != nil {
 		return "", err
+	}
+	if cc.Timing {
+		return c20Timing(cc.Def, cc.CompLine), nil
 	}
 	verifrt.SetOrderer(&explore.Chooser{})
 	base := c20Observe(cc.Def, cc.Argv, cc.CompLine)
